@@ -191,6 +191,15 @@ def rule_normal_form(ctx, rep):
                     continue
             kinds = [classify(e, originals) for e in arg]
             ok = len(arg) == len(originals) and all(k[0] in ('identity', 'plus-newline') and k[1] == i for i, k in enumerate(kinds))
+            if not ok:
+                # a line that reaches the tokenizer rewritten, dropped, doubled or out of place is established by the
+                # interpretation itself (the table can only speak for its rows)
+                outer_rep.obligation('R-NORMAL-FORM', False, {'input': kind, 'elements': [str(k) for k in kinds]})
+                real_find('R-NORMAL-FORM', init.short, 'normaliser(%s)' % kind,
+                          'for %s input the lines reaching the tokenizer are %s; expected each input line unchanged if it '
+                          'ends with a newline, else with a newline appended, and nothing else'
+                          % (kind, [str(k) for k in kinds]), loc(unit, init.node))
+                continue
             # path condition: identity only when endswith('\n') was decided True, plus-newline only when False
             if ok:
                 for i, k in enumerate(kinds):
